@@ -58,7 +58,7 @@ build prints what was printed before, then `division_by_zero`, `error`, and stay
 terminal loop (no machine fault, no wrong value) — for every program and argument vector. -/
 theorem core_division_by_zero (cf : Core.Config) (args : List Int) (pr : Core.CProg)
     (hw : 2 ≤ cf.w) (hck : cf.checked = true)
-    (hB : Core.progLen cf.checked pr + stdlibLength < 256 ^ cf.w) (hSE : Core.F0 cf args < 256 ^ cf.w)
+    (hB : Core.progLen cf.checked pr + stdlibLength < 256 ^ cf.w) (hSE : Core.F0 cf args + Core.regsLen cf.w pr < 256 ^ cf.w)
     (hwf : Core.wfProg pr = true) (hlen : args.length = pr.params.length)
     (fuel : Nat) (env' : Core.Env) (tr : List Ev)
     (hex : Core.srcRun cf fuel args pr = some (env', tr, .div0))
